@@ -28,88 +28,88 @@ func ChecksLazy() []Check {
 	return []Check{
 		{"lazy.FlatMap", func(c *Cas) {
 			d, k1, k2 := c.Eopd(), c.Ekl(), c.Ekl()
-			a := c.R.IntN(1000)
+			a := c.IntZ()
 			c.Note("a=%d", a)
 			c.Site("lazy.FlatMap")
-			li := lazy.FlatMap(lazy.Done(a), k1.At).Get()
-			c.Law("left-identity", ShowInt(li), ShowInt(k1.At(a).Get()))
+			li := EvGet(lazy.FlatMap(lazy.Done(a), k1.At))
+			c.Law("left-identity", ShowInt(li), ShowInt(EvGet(k1.At(a))))
 			c.Law("left-identity-vs-reference", ShowInt(li), ShowInt(k1.Val(a)))
-			ri := lazy.FlatMap(d.Eval(), lazy.Done[int]).Get()
-			c.Law("right-identity", ShowInt(ri), ShowInt(d.Eval().Get()))
+			ri := EvGet(lazy.FlatMap(d.Eval(), lazy.Done[int]))
+			c.Law("right-identity", ShowInt(ri), ShowInt(EvGet(d.Eval())))
 			c.Law("right-identity-vs-reference", ShowInt(ri), ShowInt(d.V))
-			as1 := lazy.FlatMap(lazy.FlatMap(d.Eval(), k1.At), k2.At).Get()
-			as2 := lazy.FlatMap(d.Eval(), func(x int) EV { return lazy.FlatMap(k1.At(x), k2.At) }).Get()
+			as1 := EvGet(lazy.FlatMap(lazy.FlatMap(d.Eval(), k1.At), k2.At))
+			as2 := EvGet(lazy.FlatMap(d.Eval(), func(x int) EV { return lazy.FlatMap(k1.At(x), k2.At) }))
 			c.Law("associativity", ShowInt(as1), ShowInt(as2))
 			c.Law("associativity-vs-reference", ShowInt(as1), ShowInt(k2.Val(k1.Val(d.V))))
 		}},
 		{"lazy.Eval.FlatMap", func(c *Cas) {
 			d, k := c.Eopd(), c.Ekl()
 			c.Site("lazy.Eval.FlatMap")
-			c.EqI(d.Eval().FlatMap(k.At).Get(), k.Val(d.V))
+			c.EqI(EvGet(d.Eval().FlatMap(k.At)), k.Val(d.V))
 		}},
 		{"lazy.Map", func(c *Cas) {
 			d, f := c.Eopd(), c.F1()
 			c.Site("lazy.Map")
-			got := lazy.Map(d.Eval(), f.Call).Get()
+			got := EvGet(lazy.Map(d.Eval(), f.Call))
 			c.EqI(got, f.Call(d.V))
 			c.Site("lazy.FlatMap")
-			c.EqDef(ShowInt(got), ShowInt(lazy.FlatMap(d.Eval(), func(x int) EV { return lazy.Done(f.Call(x)) }).Get()))
+			c.EqDef(ShowInt(got), ShowInt(EvGet(lazy.FlatMap(d.Eval(), func(x int) EV { return lazy.Done(f.Call(x)) }))))
 		}},
 		{"lazy.Eval.Map", func(c *Cas) {
 			d, f := c.Eopd(), c.F1()
 			c.Site("lazy.Eval.Map")
-			c.EqI(d.Eval().Map(f.Call).Get(), f.Call(d.V))
+			c.EqI(EvGet(d.Eval().Map(f.Call)), f.Call(d.V))
 		}},
 		{"lazy.Map2", func(c *Cas) {
 			a, b, g := c.Eopd(), c.Eopd(), c.Fn()
 			c.Site("lazy.Map2")
-			got := lazy.Map2(a.Eval(), b.Eval(), g.Call2).Get()
+			got := EvGet(lazy.Map2(a.Eval(), b.Eval(), g.Call2))
 			c.EqI(got, g.Call(a.V, b.V))
 			c.Site("lazy.FlatMap")
-			def := lazy.FlatMap(a.Eval(), func(x int) EV {
+			def := EvGet(lazy.FlatMap(a.Eval(), func(x int) EV {
 				return lazy.FlatMap(b.Eval(), func(y int) EV { return lazy.Done(g.Call(x, y)) })
-			}).Get()
+			}))
 			c.EqDef(ShowInt(got), ShowInt(def))
 		}},
 		{"lazy.Done", func(c *Cas) {
-			a := c.R.IntN(1000)
+			a := c.IntZ()
 			c.Shape("done")
 			c.Site("lazy.Done")
-			c.EqI(lazy.Done(a).Get(), a)
+			c.EqI(EvGet(lazy.Done(a)), a)
 			c.Site("lazy.Run")
 			c.EqI(lazy.Run(lazy.Done(a)), a)
 		}},
 		{"lazy.Call", func(c *Cas) {
-			a := c.R.IntN(1000)
+			a := c.IntZ()
 			c.Shape("call")
 			c.Site("lazy.Call")
-			c.EqI(lazy.Call(func() int { return a }).Get(), a)
+			c.EqI(EvGet(lazy.Call(func() int { return a })), a)
 		}},
 		{"lazy.TailCall", func(c *Cas) {
 			d := c.Eopd()
 			c.Site("lazy.TailCall")
-			c.EqI(lazy.TailCall(func() EV { return d.Eval() }).Get(), d.V)
+			c.EqI(EvGet(lazy.TailCall(func() EV { return d.Eval() })), d.V)
 		}},
 		{"lazy.Func1", func(c *Cas) {
 			f := c.F1()
 			xs := c.Ints(1)
 			c.Shape("func")
 			c.Site("lazy.Func1")
-			c.EqI(lazy.Func1(f.Call)(xs[0]).Get(), f.Call(xs[0]))
+			c.EqI(EvGet(lazy.Func1(f.Call)(xs[0])), f.Call(xs[0]))
 		}},
 		{"lazy.Func2", func(c *Cas) {
 			g := c.Fn()
 			xs := c.Ints(2)
 			c.Shape("func")
 			c.Site("lazy.Func2")
-			c.EqI(lazy.Func2(g.Call2)(xs[0], xs[1]).Get(), g.Call(xs[0], xs[1]))
+			c.EqI(EvGet(lazy.Func2(g.Call2)(xs[0], xs[1])), g.Call(xs[0], xs[1]))
 		}},
 		{"lazy.Func3", func(c *Cas) {
 			g := c.Fn()
 			xs := c.Ints(3)
 			c.Shape("func")
 			c.Site("lazy.Func3")
-			c.EqI(lazy.Func3(func(a, b, cc int) int { return g.Call(a, b, cc) })(xs[0], xs[1], xs[2]).Get(), g.Call(xs...))
+			c.EqI(EvGet(lazy.Func3(func(a, b, cc int) int { return g.Call(a, b, cc) })(xs[0], xs[1], xs[2])), g.Call(xs...))
 		}},
 	}
 }
@@ -236,7 +236,7 @@ func ProgramLazy() Check {
 		c.ShapeHash(string(b))
 		got := EEvalLib(c, e, nil)
 		c.Site("lazy.Eval.Get")
-		c.EqI(got.Get(), EEvalRef(e, nil))
+		c.EqI(EvGet(got), EEvalRef(e, nil))
 	}}
 }
 
@@ -244,7 +244,7 @@ func ProgramLazy() Check {
 
 func ChecksFn0() []Check {
 	type F = fp.Func0[int]
-	u := fp.Unit{}
+	_ = fp.Unit{}
 	mk := func(v int, kind int) F {
 		if kind%2 == 0 {
 			return fn0.Pure(v)
@@ -261,35 +261,35 @@ func ChecksFn0() []Check {
 		{"fn0.FlatMap", func(c *Cas) {
 			v, m := opd0(c)
 			k1, k2 := c.F1(), c.F1()
-			a := c.R.IntN(1000)
+			a := c.IntZ()
 			f := func(x int) F { return mk(k1.Call(x), x) }
 			g := func(x int) F { return mk(k2.Call(x), x+1) }
 			c.Site("fn0.FlatMap")
-			li := fn0.FlatMap(fn0.Pure(a), f)(u)
-			c.Law("left-identity", ShowInt(li), ShowInt(f(a)(u)))
+			li := Run0I(fn0.FlatMap(fn0.Pure(a), f))
+			c.Law("left-identity", ShowInt(li), ShowInt(Run0I(f(a))))
 			c.Law("left-identity-vs-reference", ShowInt(li), ShowInt(k1.Call(a)))
-			ri := fn0.FlatMap(m, func(x int) F { return fn0.Pure(x) })(u)
-			c.Law("right-identity", ShowInt(ri), ShowInt(m(u)))
+			ri := Run0I(fn0.FlatMap(m, func(x int) F { return fn0.Pure(x) }))
+			c.Law("right-identity", ShowInt(ri), ShowInt(Run0I(m)))
 			c.Law("right-identity-vs-reference", ShowInt(ri), ShowInt(v))
-			as1 := fn0.FlatMap(fn0.FlatMap(m, f), g)(u)
-			as2 := fn0.FlatMap(m, func(x int) F { return fn0.FlatMap(f(x), g) })(u)
+			as1 := Run0I(fn0.FlatMap(fn0.FlatMap(m, f), g))
+			as2 := Run0I(fn0.FlatMap(m, func(x int) F { return fn0.FlatMap(f(x), g) }))
 			c.Law("associativity", ShowInt(as1), ShowInt(as2))
 			c.Law("associativity-vs-reference", ShowInt(as1), ShowInt(k2.Call(k1.Call(v))))
 		}},
 		{"fn0.Pure", func(c *Cas) {
-			a := c.R.IntN(1000)
+			a := c.IntZ()
 			c.Shape("pure")
 			c.Site("fn0.Pure")
-			c.EqI(fn0.Pure(a)(u), a)
+			c.EqI(Run0I(fn0.Pure(a)), a)
 		}},
 		{"fn0.Map", func(c *Cas) {
 			v, m := opd0(c)
 			f := c.F1()
 			c.Site("fn0.Map")
-			got := fn0.Map(m, f.Call)(u)
+			got := Run0I(fn0.Map(m, f.Call))
 			c.EqI(got, f.Call(v))
 			c.Site("fn0.FlatMap")
-			c.EqDef(ShowInt(got), ShowInt(fn0.FlatMap(m, func(x int) F { return fn0.Pure(f.Call(x)) })(u)))
+			c.EqDef(ShowInt(got), ShowInt(Run0I(fn0.FlatMap(m, func(x int) F { return fn0.Pure(f.Call(x)) }))))
 		}},
 		{"fn0.Flatten", func(c *Cas) {
 			v, _ := opd0(c)
@@ -297,10 +297,10 @@ func ChecksFn0() []Check {
 			kind := c.R.IntN(2)
 			var mm fp.Func0[F] = func(fp.Unit) F { return mk(f.Call(v), kind) }
 			c.Site("fn0.Flatten")
-			got := fn0.Flatten(mm)(u)
+			got := Run0I(fn0.Flatten(mm))
 			c.EqI(got, f.Call(v))
 			c.Site("fn0.FlatMap")
-			c.EqDef(ShowInt(got), ShowInt(fn0.FlatMap(mm, func(x F) F { return x })(u)))
+			c.EqDef(ShowInt(got), ShowInt(Run0I(fn0.FlatMap(mm, func(x F) F { return x }))))
 		}},
 	}
 }
@@ -311,31 +311,31 @@ func ChecksFn1() []Check {
 	return []Check{
 		{"fn1.FlatMap", func(c *Cas) {
 			d, k1, k2 := c.R1d(), c.R1k(), c.R1k()
-			a := c.R.IntN(1000)
+			a := c.IntZ()
 			c.Note("a=%d", a)
 			c.Site("fn1.FlatMap")
 			li := Probe(fn1.FlatMap(fn1.Pure[int](a), k1.Lib))
 			c.Law("left-identity", li, Probe(k1.Lib(a)))
-			c.Law("left-identity-vs-reference", li, Probe(k1.Ref(a)))
+			c.Law("left-identity-vs-reference", li, ProbeRef(k1.Ref(a)))
 			ri := Probe(fn1.FlatMap(d.Lib(), func(v int) R1 { return fn1.Pure[int](v) }))
 			c.Law("right-identity", ri, Probe(d.Lib()))
-			c.Law("right-identity-vs-reference", ri, Probe(d.Ref))
+			c.Law("right-identity-vs-reference", ri, ProbeRef(d.Ref))
 			as1 := Probe(fn1.FlatMap(fn1.FlatMap(d.Lib(), k1.Lib), k2.Lib))
 			as2 := Probe(fn1.FlatMap(d.Lib(), func(v int) R1 { return fn1.FlatMap(k1.Lib(v), k2.Lib) }))
 			c.Law("associativity", as1, as2)
-			c.Law("associativity-vs-reference", as1, Probe(func(x int) int { return k2.Ref(k1.Ref(d.Ref(x))(x))(x) }))
+			c.Law("associativity-vs-reference", as1, ProbeRef(func(x int) int { return k2.Ref(k1.Ref(d.Ref(x))(x))(x) }))
 		}},
 		{"fn1.Pure", func(c *Cas) {
-			a := c.R.IntN(1000)
+			a := c.IntZ()
 			c.Shape("pure")
 			c.Site("fn1.Pure")
-			c.Eq(Probe(fn1.Pure[int](a)), Probe(func(int) int { return a }))
+			c.Eq(Probe(fn1.Pure[int](a)), ProbeRef(func(int) int { return a }))
 		}},
 		{"fn1.Map", func(c *Cas) {
 			d, f := c.R1d(), c.F1()
 			c.Site("fn1.Map")
 			got := Probe(fn1.Map(d.Lib(), f.Call))
-			c.Eq(got, Probe(func(x int) int { return f.Call(d.Ref(x)) }))
+			c.Eq(got, ProbeRef(func(x int) int { return f.Call(d.Ref(x)) }))
 			c.Site("fn1.FlatMap")
 			c.EqDef(got, Probe(fn1.FlatMap(d.Lib(), func(v int) R1 { return fn1.Pure[int](f.Call(v)) })))
 		}},
@@ -344,21 +344,21 @@ func ChecksFn1() []Check {
 			mm := func() fp.Func1[int, R1] { return func(x int) R1 { return k.Lib(d.Ref(x)) } }
 			c.Site("fn1.Flatten")
 			got := Probe(fn1.Flatten(mm()))
-			c.Eq(got, Probe(func(x int) int { return k.Ref(d.Ref(x))(x) }))
+			c.Eq(got, ProbeRef(func(x int) int { return k.Ref(d.Ref(x))(x) }))
 			c.Site("fn1.FlatMap")
 			c.EqDef(got, Probe(fn1.FlatMap(mm(), func(v R1) R1 { return v })))
 		}},
 		{"fn1.Get", func(c *Cas) {
 			c.Shape("get")
 			c.Site("fn1.Get")
-			c.Eq(Probe(fn1.Get[int]()), Probe(func(x int) int { return x }))
+			c.Eq(Probe(fn1.Get[int]()), ProbeRef(func(x int) int { return x }))
 		}},
 		{"fn1.WithArg", func(c *Cas) {
 			k := c.R1k()
 			c.Shape("witharg")
 			c.Site("fn1.WithArg")
 			got := Probe(fn1.WithArg(func(a int) R1 { return k.Lib(a) }))
-			c.Eq(got, Probe(func(x int) int { return k.Ref(x)(x) }))
+			c.Eq(got, ProbeRef(func(x int) int { return k.Ref(x)(x) }))
 		}},
 		{"fn1.program", func(c *Cas) {
 			// a left- or right-nested chain of FlatMap/Map over readers
@@ -391,7 +391,7 @@ func ChecksFn1() []Check {
 			c.Site("fn1.Map")
 			got = fn1.Map(got, f.Call)
 			c.W.Max("program.depth.fn1", int64(n+1))
-			c.Eq(Probe(got), Probe(func(x int) int {
+			c.Eq(Probe(got), ProbeRef(func(x int) int {
 				v := d.Ref(x)
 				for _, k := range ks {
 					v = k.Ref(v)(x)
